@@ -12,6 +12,7 @@ import (
 	"net/http/httptest"
 	"os"
 	"runtime"
+	"strings"
 	"sync"
 	"testing"
 
@@ -78,7 +79,7 @@ func failAfter(c templ.Component, k int) templ.Component {
 type renderJobKey struct{}
 
 var rec = ev.New("C14", "c14.concurrent",
-	"plans of 2..16 goroutines x 1..6 renders over a table of compiled fixture components (text/attribute sinks with control flow, script elements with Go values, css components, script templates, once handles, wrapper components with child blocks, JSON script), each render with its own context and writer (fast, yielding every w bytes, chunked, failing at byte k, or the goroutine's own long-lived bufio.Writer), GOMAXPROCS 1, 2 or 16, component values created per render or shared by all goroutines, in a quarter of the plans every render being a request through one shared templ.NewCSSMiddleware, in another quarter a request served by templ.Handler in buffered mode (failing writers become failing components there); the test binary is built with -race. "+
+	"plans of 2..16 goroutines x 1..6 renders over a table of compiled fixture components (text/attribute sinks with control flow, script elements with Go values, css components, script templates, once handles, wrapper components with child blocks, JSON script, and the components that come with the runtime - templ.Raw, templ.Join, a once handle with its own component, templ.Flush, templ.JSONScript, templ.JSFuncCall), each render with its own context and writer (fast, yielding every w bytes, chunked, failing at byte k, or the goroutine's own long-lived bufio.Writer), GOMAXPROCS 1, 2 or 16, component values created per render or shared by all goroutines, in a quarter of the plans every render being a request through one shared templ.NewCSSMiddleware, in another quarter a request served by templ.Handler in buffered mode (failing writers become failing components there); the test binary is built with -race. "+
 		"Oracle: no data race report (the race detector fails the process), every successful render equals the sequential reference of that component byte for byte, every failed one is a prefix of it and returns the writer's error. "+
 		"Non-trivial = >=2 goroutines render the same component with at least one failing writer among them; distinct by plan. Schedules are sampled by the Go scheduler, not enumerated")
 
@@ -109,6 +110,21 @@ var table = []comp{
 	{"CSSComponent", func() templ.Component { return fx.CSSComponent("two", "3px") }},
 	{"JSONScr", func() templ.Component { return fx.JSONScr(map[string]string{"k": "</script>"}) }},
 	{"StyleMulti", func() templ.Component { return fx.StyleMulti("10px") }},
+	// components that come with the runtime rather than out of the generator: a value of these is
+	// typically made once (a package-level logo, a banner kept in a struct) and rendered by everybody
+	{"Raw", func() templ.Component { return templ.Raw("<i>raw &amp; text</i>") }},
+	{"RawLong", func() templ.Component { return templ.Raw(strings.Repeat("<p>0123456789</p>", 900)) }},
+	{"JoinWithRaw", func() templ.Component {
+		return templ.Join(templ.Raw("<b>a</b>"), fx.TextInControl("t", []string{"x"}), templ.Raw("<b>z</b>"))
+	}},
+	{"JoinOfScripts", func() templ.Component {
+		return templ.Join(fx.EScript(0, 1, "x"), fx.EScript(1, 1, "y"), fx.EScript(2, 3, "z"))
+	}},
+	{"OnceWithComponent", func() templ.Component { return fx.EFixed() }},
+	{"FlushAroundRaw", func() templ.Component { return fx.WrapFlush(templ.Raw("<p>flushed</p>")) }},
+	{"JSONScript", func() templ.Component { return templ.JSONScript("data", map[string]any{"a": "</script>", "n": 1}) }},
+	{"JSFuncCall", func() templ.Component { return templ.JSFuncCall("console.log", "it's", 2) }},
+	{"Nop", func() templ.Component { return templ.NopComponent }},
 }
 
 var errW = errors.New("writer failed deliberately")
